@@ -13,6 +13,9 @@ CHECKS = {
  "C03": ("E4-word-enumerator", "exhaustive enumeration of lexical forms, blank node labels, language tags and IRIs up to a length, placed in every legal position, serialised and parsed back in crash-attributing worker processes; output also read by an independent W3C-grammar reader",
          "Every string up to the bound over alphabets chosen for the escaping rules (quotes, backslash, CR/LF/TAB, C0 controls, DEL, combining marks, non-BMP, U+FFFE; label characters incl. dots, leading digits, middle dot) is serialised in N-Triples/N-Quads in every position incl. nested quoted triples and parsed back: exact equality of the quads, one line per statement, and an independent reader of the W3C EBNF reads the same quads.",
          "Independent reader written from the EBNF; language tag case may be normalised (RDF 1.1 term equality); length bounds.", "DESIGN.md §4 C03"),
+ "C04": ("E2-shape-lattice", "exhaustive enumeration of all datasets up to k statements over finite triple/quad universes (every sub-dataset exactly once, no symmetry reduction) x syntax x pretty/streaming x prefix maps x indentation, in crash-attributing worker processes; brute-force isomorphism oracle",
+         "Every dataset up to the size bound over universes built to trigger each abbreviation both ways (blank node cycles of every length up to the bound, shared/unreferenced/branching/cyclic list cells, asserted-and-quoted triples, blank nodes spanning graphs, rdf:nil in every position) is serialised and parsed back; the result must be isomorphic (all blank node bijections tried) with no duplicate statement. Numeric/boolean shorthands and prefixed names are covered by enumerating all short lexical forms and local names. Hangs, aborts and memory blow-ups are attributed to the case by the worker pool.",
+         "Small-scope hypothesis on dataset size; the toolkit's own Turtle/TriG parser reads the output; brute-force isomorphism model.", "DESIGN.md §4 C04"),
  "C09": ("E3-product-automaton", "product of the DFA determinised from the crate's regex source with the DFA of the RFC 3987 ABNF (all strings), witness replay per product edge; bounded exhaustive string and (base, reference) pair enumeration against RFC 3986 5.2",
          "Language equality of the validator with RFC 3987 is decided for strings of every length by exploring all reachable product states; the model is bound to the code by construction (built from the crate's public regex source at run time) and by replaying a witness per product edge through every validating entry point. Base conversion, Namespace::get and resolution are checked exhaustively over all strings up to a length and all pairs of a generated IRI set.",
          "regex-automata determinisation; ABNF transcription (cross-checked against oxiri); RFC 3986 5.2 reference (validated on the 42 examples of 5.4); bounds of the string/pair enumerations.", "DESIGN.md §4 C09"),
